@@ -163,6 +163,9 @@ impl Meta {
                 ("general-variants", n / 2),
                 ("colliding-literals", if ctx.flavour == Flavour::Rel { super::collide::literal_pairs().len() as u64 * 2 } else { 0 }),
                 ("many-literals", match (ctx.flavour, ctx.tier) { (Flavour::Rel, Tier::Quick) => 9, (Flavour::Rel, Tier::Thorough) => 60, _ => 0 }),
+                // a constant pool filled to the brim, then one more small literal next to a variable — written as a literal
+                // and held in a variable: the same value, or the same limit error
+                ("full-pool", if ctx.flavour == Flavour::Rel { 6 } else { 0 }),
             ]),
         }
     }
@@ -192,6 +195,28 @@ impl Meta {
                 for (shape, text, want) in collide::literal_programs(a, b) {
                     st.distinct_hash(hash_str(&text));
                     collide::judge(name, shape, how, &text, &want, None, &cfg, st);
+                }
+            }
+            "full-pool" => {
+                // 1 + n distinct integer constants (the pool holds 65 536), then the expression
+                let n = [65_534u64, 65_535, 65_536][(i / 2) as usize];
+                let tail_lit = if i % 2 == 0 { "x + 7" } else { "7 + x" };
+                let tail_var = if i % 2 == 0 { "stel t = 7; x + t" } else { "stel t = 7; t + x" };
+                let mut body = String::with_capacity(n as usize * 7);
+                body.push_str("stel x = 1000; ");
+                for k in 0..n {
+                    body.push_str(&format!("{}; ", 1001 + k));
+                }
+                let cfg = ObsCfg::plain(50_000_000);
+                let a = eval_observed(&format!("{}{}", body, tail_lit), &cfg);
+                let b = eval_observed(&format!("{}{}", body, tail_var), &cfg);
+                st.evaluations += 2;
+                st.count(&format!("full-pool:{}:{}", n, a.outcome.class()));
+                let limit = |o: &Outcome| matches!(o, Outcome::Error(ErrKind::Syntax, m) if m.contains("te groot"));
+                let value = |o: &Outcome| matches!(o, Outcome::Value(crate::val::Val::Int(1007)));
+                let text = format!("stel x = 1000; 1001; 1002; … {}; {}   //  against: … {}", 1000 + n, tail_lit, tail_var);
+                if !(limit(&a.outcome) || value(&a.outcome)) || !(limit(&b.outcome) || value(&b.outcome)) {
+                    st.violation("full-pool:neither-the-value-nor-the-limit", format!("with the literal: {}; with the variable: {} (1007 or the documented limit error are the two answers)", a.outcome.render(), b.outcome.render()), &text);
                 }
             }
             "many-names" => {
@@ -276,7 +301,7 @@ impl Check for Meta {
     }
     fn describe_case(&mut self, ctx: &Ctx, idx: u64) -> String {
         let (_, name, i) = self.fams(ctx).locate(idx);
-        if matches!(name, "colliding-names" | "many-names" | "colliding-literals" | "many-literals") {
+        if matches!(name, "colliding-names" | "many-names" | "colliding-literals" | "many-literals" | "full-pool") {
             return format!("{} #{}", name, i);
         }
         to_text(&self.base_program(ctx, idx).1)
@@ -285,7 +310,7 @@ impl Check for Meta {
     fn run_case(&mut self, ctx: &Ctx, idx: u64, st: &mut Stats) {
         {
             let (_, name, i) = self.fams(ctx).locate(idx);
-            if matches!(name, "colliding-names" | "many-names" | "colliding-literals" | "many-literals") {
+            if matches!(name, "colliding-names" | "many-names" | "colliding-literals" | "many-literals" | "full-pool") {
                 self.collisions(ctx, name, i, st);
                 return;
             }
